@@ -23,8 +23,11 @@ DEFS = [
     (r"dt_duration::FeelDaysAndTimeDuration as core::convert::TryFrom<&str>>::try_from$", r"assert\|(Overflow:Add|Overflow:Mul|OverflowNeg)",
      "nanoseconds accumulates at most four terms (u64 value as i128) * constant <= 2^64 * 8.64e13 plus a fraction of a second in nanoseconds (fraction_to_nanos reads at most nine digits: < 10^9): |sum| < 2^112, far inside i128; negation of such a value cannot overflow",
      []),
-    (r"dt_duration::FeelDaysAndTimeDuration as core::ops::arith::(Add|Sub)>::(add|sub)$", r"assert\|Overflow:(Add|Sub)",
-     "operands are durations built from literals (|value| < 2^112, see try_from) or from differences of date-times inside chrono's range (< 2^93 ns); reaching i128's limit needs more than 10^7 chained additions of maximal literals, i.e. an expression of that many terms",
+    # (the addition of two durations is NOT audited: a `for` over `partial[-1] + partial[-1]` doubles a maximal literal past i128 in 17 steps - a known finding since round 15;
+    #  the audit of rounds 3..14 argued with "chained additions" and overlooked iteration)
+    (r"dt_duration::FeelDaysAndTimeDuration as core::ops::arith::Sub>::sub$", r"assert\|Overflow:Sub",
+     "the evaluator's subtraction has no arm for two days-and-time durations (`d1 - d2` is null: incompatible types); Sub is reached only from date-time / time differences and their "
+     "zone adjustments, whose operands are bounded by chrono's range (< 2^93 ns) and by literals (< 2^112)",
      []),
     (r"dt_duration::FeelDaysAndTimeDuration as core::ops::arith::Neg>::neg$", r"assert\|OverflowNeg",
      "a duration is never i128::MIN: every constructor bounds |value| below 2^112 (literals) or 2^93 (date-time differences)", []),
@@ -43,6 +46,9 @@ DEFS = [
      "the stored month count is never i64::MIN: literals are range-checked on their magnitude before the sign is applied (try_from) and date differences are below 2^37; year * 12 <= |months|", []),
     (r"ym_duration::FeelYearsAndMonthsDuration as core::convert::TryFrom<&str>>::try_from$", r"assert\|OverflowNeg",
      "total_months was produced by i64::try_from of a non-negative i128 sum, so it lies in [0, i64::MAX] and its negation cannot overflow", [r"variant:Some"]),
+    (r"decision_table::EvaluatedDecisionTable::get_matching_rules_prioritized$", r"call\|alloc::slice::<>::sort_by",
+     "the comparator orders two rules lexicographically by the positions (usize, compared with Ord::cmp) of their output values in the priority lists, a missing position after every "
+     "present one: a total preorder, so the sort's total-order check cannot fire (its shape is decided by R03.5)", []),
     # ---------------------------------------------------------------- feel: types / values
     (r"types::FeelType::(is_equivalent|is_conformant)$", r"call\|<>::index",
      "i enumerates one parameter vector and indexes the other; the enclosing `if` established that both vectors have the same length",
